@@ -30,7 +30,8 @@ EXPLANATION = (
     'fields are omitted. R5: TagRef defaults are emitted as <Class>.<tag> with the formatters the '
     'symbol creators define, and defaults are emitted after every symbol creator. R6: the '
     'literal check of a default is skipped only for null on a nullable field, and ValueError is '
-    'converted. Decides these structural parts; decoding of concrete examples is not decided.')
+    'converted. Decides these structural parts; decoding of concrete examples is not decided.'
+    ' R7 (imported from C08-R6): reading an unset defaulted field returns the default only if the attribute is not generated as nullable through an alias.')
 ASSUMPTIONS = [
     'the parser produces default literals of kinds bool, int, float, str, null and tag references '
     '(p_default_option: primitive | tag_ref)',
@@ -300,7 +301,9 @@ def run(pm, ctx):
         'set_default for every field with a declared default', pfd.loc,
         msg='set_default is not reached for every declared default',
         key='C10-R6|%s|set' % pfd.qualname)
-
+    ctx.import_rules(pm, 'C08', {'C08-R6'}, 'C10-R7',
+                     'the generated attribute takes nullability from the field type itself, not '
+                     'through aliases (shared with C08-R6)')
 
 def emission_order(pm):
     """{generator method name: index of the top-level statement of
